@@ -93,7 +93,9 @@ def stepSess [DecidableEq K] [LT K] [DecidableRel (α := K) (· < ·)]
     -- the CodeModel's enumerations are produced by the enumerator *object* (HasMoreElements / Next until exhausted)
     let t1 := showOut sk s.sv sp.ents o1
     let t2 := showOut sk s.sv (PEnum.drain cm.tab cm.count cm.tab.openEnum) o2
-    let ok := t1 == t2 && (!isEnum op || (decide (cm.count = sp.ents.length) && decide (cm.max = sp.max)))
+    -- … and driven the other way (`Size()` bare calls of Next, no HasMoreElements) it must yield the same sequence
+    let ok := t1 == t2 && (!isEnum op || (decide (cm.count = sp.ents.length) && decide (cm.max = sp.max) &&
+      decide (PEnum.takeN cm.tab cm.count cm.tab.openEnum = PEnum.drain cm.tab cm.count cm.tab.openEnum)))
     ({ s with spec := sp, conc := cm }, if ok then t1 else "MISMATCH spec=" ++ t1 ++ " model=" ++ t2)
 
 def parseThr (s : String) : Option (List (Nat × Nat)) :=
